@@ -11,6 +11,7 @@
 //
 // BOUND: all sets of 1..3 (quick) / 1..4 (thorough) distinct subnets from the fixed universe below (edges of
 // the address space, the IPv4-mapped block and its neighbours, nested and adjacent subnets, default routes),
+// each set once with pairwise distinct locations and once with its members alternating between two locations,
 // probed at every declared boundary +-1 and at fixed anchors, with full-length and network-aligned shorter
 // client prefixes. Labelled bounded; never counted as proved.
 package dnsdata
@@ -125,7 +126,7 @@ func TestVerifBoundedRearrangeLPM(t *testing.T) {
 	universe := []string{
 		"::/0", "0.0.0.0/0", "::/1", "::/8", "::/79", "::/80", "::/81", "::/96", "::/127", "::/128",
 		"0:0:0:0:1::/80", "8000::/1", "ffff::/16", "ffff:ffff:ffff:ffff:ffff:ffff:ffff:ffff/128", "2001:db8::/32", "2001:db8::/48", "2001:db8:0:1::/64",
-		"0.0.0.0/1", "0.0.0.0/8", "0.0.0.0/32", "10.0.0.0/8", "10.0.0.0/24", "10.0.0.128/25", "10.0.1.0/24", "128.0.0.0/1", "255.255.255.255/32", "255.255.255.0/24",
+		"0.0.0.0/1", "0.0.0.0/8", "0.0.0.0/32", "10.0.0.0/8", "10.0.0.0/24", "10.0.0.128/25", "10.0.1.0/24", "10.64.0.0/10", "10.128.0.0/16", "128.0.0.0/1", "255.255.255.255/32", "255.255.255.0/24",
 	}
 	maxSet := 3
 	if os.Getenv("VERIF_TIER") == "thorough" {
@@ -141,6 +142,7 @@ func TestVerifBoundedRearrangeLPM(t *testing.T) {
 	cases, fails, failSets := 0, 0, 0
 	var idx []int
 	var rec func(start, size int)
+	sameLoc := false // second pass: the members of a set alternate between two locations (nested and adjacent subnets of ONE location)
 	check := func() {
 		setFailed := false
 		set := make([]vbSubnet, len(idx))
@@ -148,8 +150,11 @@ func TestVerifBoundedRearrangeLPM(t *testing.T) {
 		desc := ""
 		for k, i := range idx {
 			set[k] = subs[i]
-			desc += subs[i].cidr + " "
-			if err := r.AddLocation(subs[i].n, subs[i].loc); err != nil {
+			if sameLoc {
+				set[k].loc = []byte{'s', byte('0' + k%2)}
+			}
+			desc += subs[i].cidr + "->" + string(set[k].loc) + " "
+			if err := r.AddLocation(subs[i].n, set[k].loc); err != nil {
 				t.Fatalf("AddLocation(%s): %v", subs[i].cidr, err)
 			}
 		}
@@ -185,7 +190,7 @@ func TestVerifBoundedRearrangeLPM(t *testing.T) {
 		for _, p := range probes {
 			plens := []int{128}
 			// network-aligned shorter client prefixes
-			for _, l := range []int{127, 120, 104, 97, 96, 80, 64, 32, 8, 1, 0} {
+			for _, l := range []int{127, 120, 112, 106, 105, 104, 97, 96, 80, 64, 48, 33, 32, 8, 1, 0} {
 				m := net.CIDRMask(l, 128)
 				if p.Mask(m).Equal(p) && (p.To4() == nil || l >= 96) {
 					plens = append(plens, l)
@@ -220,6 +225,10 @@ func TestVerifBoundedRearrangeLPM(t *testing.T) {
 		}
 	}
 	for size := 1; size <= maxSet; size++ { // smallest failing sets are reported first
+		rec(0, size)
+	}
+	sameLoc = true
+	for size := 2; size <= maxSet; size++ {
 		rec(0, size)
 	}
 	fmt.Printf("BOUNDED-CASES %d\n", cases)
